@@ -88,6 +88,22 @@ def register(lib):
         return arr
     E['numpy.arange'] = np_arange
 
+    def np_minmax(is_min):
+        def f(I, a, axis=None):
+            a = untag(a)
+            if isinstance(a, SArray) and a.ndim == 1 and getattr(a, 'prog', None) is not None:
+                # arithmetic progression: extreme value is the first or the last element
+                start, step = a.prog
+                last = ops_binop('+', start, ops_binop('*', ops_binop('-', a.shape[0], 1), step))
+                up = ops_cmp('>=', step, 0)
+                return Ite(up, start, last) if is_min else Ite(up, last, start)
+            raise Unsupported('np.min/np.max of a general array')
+        return f
+    E['numpy.min'] = np_minmax(True)
+    E['numpy.max'] = np_minmax(False)
+    E['numpy.amin'] = np_minmax(True)
+    E['numpy.amax'] = np_minmax(False)
+
     def np_asarray(I, x, dtype=None):
         x = untag(x)
         if isinstance(x, SArray):
